@@ -137,6 +137,43 @@ func filterColumns(row *ovsdb.Row, columns map[string]bool) *ovsdb.Row {
 	return &new
 }
 
+// equalRows reports whether two rows hold the same values. The elements of
+// a set are in no particular order: the same elements in another order (as
+// left behind by a delete and an insert of the same element) are the same set
+func equalRows(a, b ovsdb.Row) bool {
+	if len(a) != len(b) {
+		return false
+	}
+	for column, va := range a {
+		vb, ok := b[column]
+		if !ok {
+			return false
+		}
+		sa, isSetA := va.(ovsdb.OvsSet)
+		sb, isSetB := vb.(ovsdb.OvsSet)
+		if !isSetA || !isSetB {
+			if !reflect.DeepEqual(va, vb) {
+				return false
+			}
+			continue
+		}
+		if len(sa.GoSet) != len(sb.GoSet) {
+			return false
+		}
+		elements := make(map[interface{}]int, len(sa.GoSet))
+		for _, e := range sa.GoSet {
+			elements[e]++
+		}
+		for _, e := range sb.GoSet {
+			if elements[e] == 0 {
+				return false
+			}
+			elements[e]--
+		}
+	}
+	return true
+}
+
 // monitoredColumns returns the columns to be monitored for a table, nil if all
 // columns are to be monitored (no columns requested)
 func (m *monitor) monitoredColumns(table string) map[string]bool {
@@ -186,7 +223,7 @@ func (m *monitor) filter(update database.Update) ovsdb.TableUpdates {
 			case ru.Delete() && sel.Delete():
 				ru.New = filterColumns(ru.New, cols)
 				ru.Old = filterColumns(ru.Old, cols)
-				if ru.Modify() && reflect.DeepEqual(*ru.New, *ru.Old) {
+				if ru.Modify() && equalRows(*ru.New, *ru.Old) {
 					// none of the monitored columns changed
 					return nil
 				}
